@@ -101,73 +101,92 @@ class Dumper:
         return ['N', self.ref(c, 'nodes', 'node')]
 
     def dump_all(self):
-        """Accesses every view (entities first: reading `bmodels` removes the `model` keys)."""
+        """Accesses every view (entities first: reading `bmodels` removes the `model` keys). A view whose parser
+        raises is dumped as 'ERROR:<exception type>' (so are the views that need it)."""
         B = impl()
         b = self.b
         self._maps = {}
         d = {}
-        d['ents'] = self.ents()
-        pak = b.pakfile
-        d['pakfile'] = [[i.filename, i.compress_type, list(i.date_time), pak.read(i.filename).hex()] for i in pak.infolist()]
-        d['textures'] = list(b.textures)
-        d['texinfo'] = [self.texinfo_val(t) for t in b.texinfo]
-        d['cubemaps'] = [[vec(c.origin), c.size] for c in b.cubemaps]
-        d['vertexes'] = [vec(v) for v in b.vertexes]
-        d['planes'] = [[vec(p.normal), fl(p.dist), p.type.value] for p in b.planes]
-        d['surfedges'] = [self.edge(e) for e in b.surfedges]
-        d['primitives'] = [self.prim(p) for p in b.primitives]
-        d['orig_faces'] = None   # filled below (faces readers set texinfo / hammer_id on them)
-        faces = [self.face(f) for f in b.faces]
-        hdr = [self.face(f) for f in b.hdr_faces]
-        d['orig_faces'] = [self.face(f) for f in b.orig_faces]
-        d['faces'], d['hdr_faces'] = faces, hdr
-        d['brushes'] = [[br.contents.value, [[self.ref(s.plane, 'planes', 'plane'), self.ref(s.texinfo, 'texinfo', 'texinfo'),
-                                              s._dispinfo, s.is_bevel_plane, s._unknown_bevel_bits] for s in br.sides]]
-                        for br in b.brushes]
-        d['visleafs'] = [[l.contents.value, l.cluster_id, l.area, l.flags.value, vec(l.mins), vec(l.maxes),
-                          [self.ref(f, 'faces', 'face') for f in l.faces], [self.ref(x, 'brushes', 'brush') for x in l.brushes],
-                          l.water_id, l._ambient.hex(), l.min_water_dist] for l in b.visleafs]
-        d['water_leaf_info'] = [[fl(w.surface_z), fl(w.min_z), self.ref(w.surface_texinfo, 'texinfo', 'texinfo')]
-                                for w in b.water_leaf_info]
-        d['nodes'] = [[self.ref(n.plane, 'planes', 'plane'), vec(n.mins), vec(n.maxes),
-                       [self.ref(f, 'faces', 'face') for f in n.faces], n.area_ind, self.child(n.child_neg), self.child(n.child_pos)]
-                      for n in b.nodes]
-        vis = b.visibility
-        d['visibility'] = None if vis is None else [[bytes(r).hex() for r in vis.potentially_visible],
-                                                      [bytes(r).hex() for r in vis.potentially_audible]]
-        d['overlays'] = [[o.id, vec(o.origin), vec(o.normal), self.ref(o.texture, 'texinfo', 'texinfo'), o.face_count, list(o.faces),
-                          o.render_order, fl(o.u_min), fl(o.u_max), fl(o.v_min), fl(o.v_max), vec(o.uv1), vec(o.uv2), vec(o.uv3),
-                          vec(o.uv4), fl(o.fade_min_sq), fl(o.fade_max_sq), o.min_cpu, o.max_cpu, o.min_gpu, o.max_gpu]
-                         for o in b.overlays]
-        vmf = b.ents
-        ent_index = {id(e): i for i, e in enumerate([vmf.spawn] + list(vmf.entities))}
-        bm = []
-        for ent, m in b.bmodels.items():
-            bm.append([ent_index.get(id(ent), '<entity not in bsp.ents>'), vec(m.mins), vec(m.maxes), vec(m.origin),
-                       self.ref(m.node, 'nodes', 'node'), [self.ref(f, 'faces', 'face') for f in m.faces],
-                       None if m.phys_keyvalues is None else m.phys_keyvalues.serialise(),
-                       [s.hex() for s in m._phys_solids]])
-        d['bmodels'] = sorted(bm, key=lambda r: str(r[0]))
-        d['props'] = [[p.model, vec(p.origin), [fl(p.angles.pitch), fl(p.angles.yaw), fl(p.angles.roll)],
-                       vec(p.scaling) if not isinstance(p.scaling, (int, float)) else fl(p.scaling),
-                       sorted(str(self.ref(l, 'visleafs', 'leaf')) for l in p.visleafs), p.solidity, p.flags.value, p.skin,
-                       fl(p.min_fade), fl(p.max_fade), vec(p.lighting), fl(p.fade_scale), p.min_dx_level, p.max_dx_level,
-                       p.min_cpu_level, p.max_cpu_level, p.min_gpu_level, p.max_gpu_level, vec(p.tint), p.renderfx,
-                       p.disable_on_xbox, p.lightmap_x, p.lightmap_y] for p in b.props]
+
+        def put(name, thunk):
+            try:
+                d[name] = thunk()
+            except Exception as e:
+                d[name] = f'ERROR:{type(e).__name__}'
+
+        put('ents', self.ents)
+
+        def pak():
+            z = b.pakfile
+            return [[i.filename, i.compress_type, list(i.date_time), z.read(i.filename).hex()] for i in z.infolist()]
+        put('pakfile', pak)
+        put('textures', lambda: list(b.textures))
+        put('texinfo', lambda: [self.texinfo_val(t) for t in b.texinfo])
+        put('cubemaps', lambda: [[vec(c.origin), c.size] for c in b.cubemaps])
+        put('vertexes', lambda: [vec(v) for v in b.vertexes])
+        put('planes', lambda: [[vec(p.normal), fl(p.dist), p.type.value] for p in b.planes])
+        put('surfedges', lambda: [self.edge(e) for e in b.surfedges])
+        put('primitives', lambda: [self.prim(p) for p in b.primitives])
+        # faces readers set texinfo / hammer_id on the orig faces: dump those after both
+        faces, hdr = {}, {}
+        put('faces', lambda: [self.face(f) for f in b.faces])
+        put('hdr_faces', lambda: [self.face(f) for f in b.hdr_faces])
+        put('orig_faces', lambda: [self.face(f) for f in b.orig_faces])
+        put('brushes', lambda: [[br.contents.value, [[self.ref(s.plane, 'planes', 'plane'), self.ref(s.texinfo, 'texinfo', 'texinfo'),
+                                                       s._dispinfo, s.is_bevel_plane, s._unknown_bevel_bits] for s in br.sides]]
+                                for br in b.brushes])
+        put('visleafs', lambda: [[l.contents.value, l.cluster_id, l.area, l.flags.value, vec(l.mins), vec(l.maxes),
+                                  [self.ref(f, 'faces', 'face') for f in l.faces], [self.ref(x, 'brushes', 'brush') for x in l.brushes],
+                                  l.water_id, l._ambient.hex(), l.min_water_dist] for l in b.visleafs])
+        put('water_leaf_info', lambda: [[fl(w.surface_z), fl(w.min_z), self.ref(w.surface_texinfo, 'texinfo', 'texinfo')]
+                                        for w in b.water_leaf_info])
+        put('nodes', lambda: [[self.ref(n.plane, 'planes', 'plane'), vec(n.mins), vec(n.maxes),
+                               [self.ref(f, 'faces', 'face') for f in n.faces], n.area_ind, self.child(n.child_neg), self.child(n.child_pos)]
+                              for n in b.nodes])
+
+        def vis():
+            v = b.visibility
+            return None if v is None else [[bytes(r).hex() for r in v.potentially_visible], [bytes(r).hex() for r in v.potentially_audible]]
+        put('visibility', vis)
+        put('overlays', lambda: [[o.id, vec(o.origin), vec(o.normal), self.ref(o.texture, 'texinfo', 'texinfo'), o.face_count, list(o.faces),
+                                  o.render_order, fl(o.u_min), fl(o.u_max), fl(o.v_min), fl(o.v_max), vec(o.uv1), vec(o.uv2), vec(o.uv3),
+                                  vec(o.uv4), fl(o.fade_min_sq), fl(o.fade_max_sq), o.min_cpu, o.max_cpu, o.min_gpu, o.max_gpu]
+                                 for o in b.overlays])
+
+        def bmodels():
+            vmf = b.ents
+            ent_index = {id(e): i for i, e in enumerate([vmf.spawn] + list(vmf.entities))}
+            bm = []
+            for ent, m in b.bmodels.items():
+                bm.append([ent_index.get(id(ent), '<entity not in bsp.ents>'), vec(m.mins), vec(m.maxes), vec(m.origin),
+                           self.ref(m.node, 'nodes', 'node'), [self.ref(f, 'faces', 'face') for f in m.faces],
+                           None if m.phys_keyvalues is None else m.phys_keyvalues.serialise(),
+                           [s.hex() for s in m._phys_solids]])
+            return sorted(bm, key=lambda r: str(r[0]))
+        put('bmodels', bmodels)
+        put('props', lambda: [[p.model, vec(p.origin), [fl(p.angles.pitch), fl(p.angles.yaw), fl(p.angles.roll)],
+                               vec(p.scaling) if not isinstance(p.scaling, (int, float)) else fl(p.scaling),
+                               sorted(str(self.ref(l, 'visleafs', 'leaf')) for l in p.visleafs), p.solidity, p.flags.value, p.skin,
+                               fl(p.min_fade), fl(p.max_fade), vec(p.lighting), fl(p.fade_scale), p.min_dx_level, p.max_dx_level,
+                               p.min_cpu_level, p.max_cpu_level, p.min_gpu_level, p.max_gpu_level, vec(p.tint), p.renderfx,
+                               p.disable_on_xbox, p.lightmap_x, p.lightmap_y] for p in b.props])
         d['static_prop_version'] = b.static_prop_version.name
-        dp = []
-        for p in b.detail_props:
-            rec = [type(p).__name__, vec(p.origin), [fl(p.angles.pitch), fl(p.angles.yaw), fl(p.angles.roll)],
-                   p.orientation.value, p.leaf, list(p.lighting), list(p._light_styles), p.sway_amount]
-            if isinstance(p, B.DetailPropModel):
-                rec.append(p.model)
-            if isinstance(p, B.DetailPropSprite):
-                rec += [fl(p.sprite_scale), [fl(x) for x in p.dims_upper_left], [fl(x) for x in p.dims_lower_right],
-                        [fl(x) for x in p.texcoord_upper_left], [fl(x) for x in p.texcoord_lower_right]]
-            if isinstance(p, B.DetailPropShape):
-                rec += [p.is_cross, p.shape_angle, p.shape_size]
-            dp.append(rec)
-        d['detail_props'] = dp
+
+        def details():
+            dp = []
+            for p in b.detail_props:
+                rec = [type(p).__name__, vec(p.origin), [fl(p.angles.pitch), fl(p.angles.yaw), fl(p.angles.roll)],
+                       p.orientation.value, p.leaf, list(p.lighting), list(p._light_styles), p.sway_amount]
+                if isinstance(p, B.DetailPropModel):
+                    rec.append(p.model)
+                if isinstance(p, B.DetailPropSprite):
+                    rec += [fl(p.sprite_scale), [fl(x) for x in p.dims_upper_left], [fl(x) for x in p.dims_lower_right],
+                            [fl(x) for x in p.texcoord_upper_left], [fl(x) for x in p.texcoord_lower_right]]
+                if isinstance(p, B.DetailPropShape):
+                    rec += [p.is_cross, p.shape_angle, p.shape_size]
+                dp.append(rec)
+            return dp
+        put('detail_props', details)
         return d
 
 
@@ -262,7 +281,7 @@ class Tracer:
             B.BSP._save_funcs.update(orig_funcs)
 
 
-def dynamic_deps(path, out_path, names):
+def dynamic_deps(path, out_path, names, tolerate=()):
     """Read every view of a fresh BSP and save it (to out_path) under the tracer.
     Returns (rd, wd): per view name the list of views its reader / writer evaluated on this file."""
     B = impl()
@@ -270,7 +289,11 @@ def dynamic_deps(path, out_path, names):
     with tr.installed(), quiet():
         b = B.BSP(path)
         for n in names:
-            getattr(b, n)
+            try:
+                getattr(b, n)
+            except Exception:
+                if n not in tolerate:
+                    raise
         b.save(out_path)
     rd = {n: [] for n in names}
     wd = {n: [] for n in names}
